@@ -34,41 +34,56 @@ Proof.
   intros NR. destruct (h3run_from evs h3_0 eq_refl eq_refl NR) as (_ & _ & C & D). split; assumption.
 Qed.
 
-(* the read side (StreamSource::read with nothing buffered), with the check of the reset flag in place *)
-Lemma h3src_reset_stays : forall evs s, reset_seen s = true -> reset_seen (fold_left h3src_step evs s) = true.
+(* the read side (StreamSource::read with nothing buffered), with the check of the reset flag and the question to the
+   connection in place: a reset is known to the source one way or the other, whether or not the codec has handled it *)
+Lemma h3src_reset_stays : forall told evs s, reset_seen s || q_reset s = true ->
+  let s' := fold_left (h3src_step told) evs s in reset_seen s' || q_reset s' = true.
 Proof.
-  induction evs as [|e r IH]; intros s H; cbn [fold_left]; [exact H|].
+  intros told. induction evs as [|e r IH]; intros s H; cbn [fold_left]; [exact H|].
+  apply IH. destruct e; cbn; try exact H.
+  destruct (reset_seen s), told; reflexivity.
+Qed.
+
+Lemma h3src_finished_stays : forall told evs s, q_finished s = true -> q_finished (fold_left (h3src_step told) evs s) = true.
+Proof.
+  intros told. induction evs as [|e r IH]; intros s H; cbn [fold_left]; [exact H|].
   apply IH. destruct e; cbn; try exact H; reflexivity.
 Qed.
 
-Lemma h3src_reset_seen_after : forall evs s, In ClientReset evs -> reset_seen (fold_left h3src_step evs s) = true.
+Lemma h3src_reset_known_after : forall told evs s, In ClientReset evs ->
+  let s' := fold_left (h3src_step told) evs s in reset_seen s' || q_reset s' = true /\ q_finished s' = true.
 Proof.
-  induction evs as [|e r IH]; intros s H; [destruct H|].
+  intros told. induction evs as [|e r IH]; intros s H; [destruct H|].
   cbn [fold_left]. destruct H as [E|H].
-  - subst e. apply h3src_reset_stays. reflexivity.
+  - subst e. split.
+    + apply h3src_reset_stays. cbn. destruct (reset_seen s), told; reflexivity.
+    + apply h3src_finished_stays. reflexivity.
   - apply IH. exact H.
 Qed.
 
 Lemma h3_reset_read_proof :
-  (forall evs, In ClientReset evs -> h3_read_empty true (h3src_run evs) = SrcErr)
-  /\ (forall evs, h3_read_empty true (h3src_run evs) = SrcEof -> ~ In ClientReset evs /\ In ClientFin evs).
+  (forall told evs, In ClientReset evs -> h3_read_empty true true (h3src_run told evs) = SrcErr)
+  /\ (forall told evs, h3_read_empty true true (h3src_run told evs) = SrcEof -> ~ In ClientReset evs /\ In ClientFin evs).
 Proof.
-  split.
-  - intros evs H. unfold h3_read_empty, h3src_run. rewrite (h3src_reset_seen_after evs h3src_0 H). reflexivity.
-  - intros evs H. split.
-    + intros R. unfold h3_read_empty, h3src_run in H. rewrite (h3src_reset_seen_after evs h3src_0 R) in H. discriminate H.
-    + unfold h3src_run in H.
-      assert (G : forall l s, q_finished (fold_left h3src_step l s) = true -> q_finished s = true \/ In ClientFin l \/ In ClientReset l).
-      { induction l as [|e r IH]; intros s Q; cbn [fold_left] in Q; [left; exact Q|].
-        destruct (IH _ Q) as [Q'|[F|R]].
-        - destruct e; cbn in Q'; [right; left; left; reflexivity|right; right; left; reflexivity|left; exact Q'].
-        - right; left; right; exact F.
-        - right; right; right; exact R. }
-      unfold h3_read_empty in H.
-      destruct (reset_seen (fold_left h3src_step evs h3src_0)) eqn:RS; [discriminate H|].
-      cbn [andb] in H.
-      destruct (q_finished (fold_left h3src_step evs h3src_0)) eqn:Q.
-      * destruct (G evs h3src_0 Q) as [Q0|[F|R]]; [discriminate Q0|exact F|].
-        rewrite (h3src_reset_seen_after evs h3src_0 R) in RS. discriminate RS.
-      * destruct (registered (fold_left h3src_step evs h3src_0)); discriminate H.
+  assert (P1 : forall told evs, In ClientReset evs -> h3_read_empty true true (h3src_run told evs) = SrcErr).
+  { intros told evs H. unfold h3_read_empty, h3src_run.
+    destruct (h3src_reset_known_after told evs h3src_0 H) as [K Q]. cbn zeta in K, Q.
+    rewrite Q. destruct (reset_seen (fold_left (h3src_step told) evs h3src_0)); [reflexivity|].
+    cbn [orb] in K. rewrite K. reflexivity. }
+  split; [exact P1|].
+  intros told evs H. split.
+  - intros R. rewrite (P1 told evs R) in H. discriminate H.
+  - unfold h3src_run in H.
+    assert (G : forall l s, q_finished (fold_left (h3src_step told) l s) = true -> q_finished s = true \/ In ClientFin l \/ In ClientReset l).
+    { induction l as [|e r IH]; intros s Q; cbn [fold_left] in Q; [left; exact Q|].
+      destruct (IH _ Q) as [Q'|[F|R]].
+      - destruct e; cbn in Q'; [right; left; left; reflexivity|right; right; left; reflexivity|left; exact Q'].
+      - right; left; right; exact F.
+      - right; right; right; exact R. }
+    destruct (q_finished (fold_left (h3src_step told) evs h3src_0)) eqn:Q.
+    + destruct (G evs h3src_0 Q) as [Q0|[F|R]]; [discriminate Q0|exact F|].
+      fold (h3src_run told evs) in H. rewrite (P1 told evs R) in H. discriminate H.
+    + unfold h3_read_empty in H. rewrite Q in H.
+      destruct (true && reset_seen (fold_left (h3src_step told) evs h3src_0)); [discriminate H|].
+      destruct (registered (fold_left (h3src_step told) evs h3src_0)); discriminate H.
 Qed.
